@@ -49,7 +49,7 @@ def model_line(c):
         return '%d (%s %s %d)' % (U['score_voting'], cfg_sx(c['cfg']), sp_sx(c['votes']), c['n'])
     if u == 'mj':
         return '%d (%d %s %s %d)' % (U['mj'], 1 if c['plus'] else 0, cfg_sx(dict(c['cfg'], fn='median_low')), sp_sx(c['votes']), c['n'])
-    if u == 'star':
+    if u == 'star' and c.get('unscored', 'none') == 'none':
         return '%d (%s %d)' % (BLOCK['C12'], sp_sx(c['votes']), c['n'])
     return '%d (%s %d)' % (U['pav'], '()', 0)          # alloc: no model (placeholder line)
 
@@ -103,15 +103,17 @@ def impl(c):
     if u == 'mj':
         return ok(enc_sel(cd.MajorityJudgment(tie_breaking='plus' if c['plus'] else 'default', **kw).evaluate(py_sp(c['votes']), c['n'])))
     if u == 'star':
-        return ok(enc_sel(cd.STAR().evaluate(py_sp(c['votes']), c['n'])))
+        # the configured unscored_value must reach both the score sums and the run-off ranking
+        kw_star = {} if c.get('unscored', 'none') == 'none' else dict(unscored_value=int(c['unscored']))
+        return ok(enc_sel(cd.STAR(**kw_star).evaluate(py_sp(c['votes']), c['n'])))
     if u == 'alloc':
         return ok(enc_sel(cd.AllocatedScoreSelector(c['quota']).evaluate(py_sp(c['votes']), c['n'])))
     raise ValueError(u)
 
 
 def canon(c, wire):
-    if c['unit'] == 'alloc':
-        return ('n/a',)
+    if c['unit'] == 'alloc' or (c['unit'] == 'star' and c.get('unscored', 'none') != 'none'):
+        return ('n/a',)        # no Coq model for this configuration: judged by the reference in spec()
     v = common.parse_sx(wire)
     if v[0] != 0:
         crash = (common.E['KEY'], common.E['STATS'], common.E['ZERODIV'], common.E['VALUE'], common.E['INDEX'])
@@ -343,8 +345,10 @@ def spec(c, io, mo):
         order = sorted(sums, key=lambda k: -sums[k])
         if len(order) >= 3 and sums[order[1]] > sums[order[2]] or len(order) == 2:
             a, b2 = order[0], order[1]
-            pa = sum(w for bal, w in c['votes'] if dict(bal).get(a, -1) > dict(bal).get(b2, -1))
-            pb = sum(w for bal, w in c['votes'] if dict(bal).get(b2, -1) > dict(bal).get(a, -1))
+            # an unscored finalist counts with the configured unscored_value, or below every scored one when there is none
+            uv = -1 if c.get('unscored', 'none') == 'none' else int(c['unscored'])
+            pa = sum(w for bal, w in c['votes'] if dict(bal).get(a, uv) > dict(bal).get(b2, uv))
+            pb = sum(w for bal, w in c['votes'] if dict(bal).get(b2, uv) > dict(bal).get(a, uv))
             want = a if pa > pb else b2 if pb > pa else None
             res = v[1]
             if want is not None and res != [want]:
@@ -444,6 +448,8 @@ def gen(rng, count):
                 c['plus'] = rng.random() < 0.5
             if u == 'alloc':
                 c['quota'] = rng.choice(['droop', 'hare'])
+            if u == 'star' and rng.random() < 0.4:
+                c['unscored'] = '0'
             yield c
 
 
@@ -488,6 +494,18 @@ def gen_focus(rng, count):
         c = dict(unit=u, votes=votes, n=1, cfg=dict(fn='median_low', unscored='none', min_count=0, trunc='0', bottom='0'))
         if u == 'mj':
             c['plus'] = rng.random() < 0.3
+        if u == 'star' and rng.random() < 0.5:
+            # partial ballots: a finalist left unscored by some voters meets one scored at / below the configured unscored_value
+            votes, seen = [], set()
+            for _ in range(rng.randint(3, 6)):
+                cs = sorted(rng.sample(range(1, m + 1), rng.randint(1, m)))
+                b = [[cc, rng.randint(0, 3)] for cc in cs]
+                if repr(b) not in seen:
+                    seen.add(repr(b))
+                    votes.append([b, rng.randint(1, 3)])
+            c['votes'] = votes
+            if rng.random() < 0.7:
+                c['unscored'] = '0'
         yield c
 
 
